@@ -30,7 +30,8 @@ REQUIRED = ["kind.dynamic", "kind.static", "kind.lanelet", "kind.network", "kind
             "op.trajectory.append_state", "op.cycle_elements=", "op.element-edit", "op.time_offset=", "history-model-checked",
             "op.add_lanelet-deferred", "op.remove_lanelet-deferred", "op.lanelet.translate_rotate",
             "network.built-without-index", "op.merge.disjoint", "op.merge.new-then-duplicate", "op.merge.duplicate-first",
-            "op.lanelet.convert_to_2d", "static.move-creeping", "dynamic.shape-off-centre"]
+            "op.lanelet.convert_to_2d", "static.move-creeping", "dynamic.shape-off-centre", "lanelet.stop-line-point-less",
+            "lanelet.stop-line-with-points"]
 EXHAUSTIVE = {"quick": "per object kind: all mutator sequences of length <= 2 (each step followed by the full query battery)",
               "thorough": "per object kind: all mutator sequences of length <= 3"}
 ASSUMPTIONS = ["direct assignment to vertices or shape parameters is not in the statement's mutator list",
@@ -456,9 +457,21 @@ def run(ctx):
             ctx.violation("C11/lanelet/stale-distance/after-convert_to_2d", "distance %s, fresh 2-D lanelet %s" % (
                 la.distance.tolist(), fr.distance.tolist()), wit)
 
+    n_lanelet_runs = [0]
+
     def run_lanelet(rng, n):
         pl = lattice.strip(rng, 0.0, 0.0, 4, 2.0, 3.0)
-        la = lattice.lanelet(1, pl)
+        # with / without a stop line; the points of a stop line are optional
+        from commonroad.common.common_lanelet import LineMarking, StopLine
+        slk = ("none", "with-points", "point-less")[n_lanelet_runs[0] % 3]
+        n_lanelet_runs[0] += 1
+        kw_sl = {}
+        if slk == "with-points":
+            kw_sl["stop_line"] = StopLine(np.array(pl[0][-1], dtype=float), np.array(pl[2][-1], dtype=float), LineMarking.SOLID)
+        elif slk == "point-less":
+            kw_sl["stop_line"] = StopLine(None, None, LineMarking.SOLID)
+        ctx.feature("lanelet.stop-line-" + slk)
+        la = lattice.lanelet(1, pl, **kw_sl)
         _ = la.polygon, la.distance, la.inner_distance
         L0 = float(la.distance[-1])
         fracs = [0.0, 0.37 * L0, L0 * (1 - 1e-9)]   # the SAME arc lengths before and after every motion
